@@ -13,7 +13,10 @@ ASSUMPTIONS = ["lru_time_cache: with_expiry_duration has unbounded capacity; ent
 ALLOWED = {"lru_time_cache::LruCache::<Key, Value>::with_expiry_duration",
            "lru_time_cache::LruCache::<Key, Value>::entry",
            "lru_time_cache::Entry::<'a, Key, Value>::or_insert",
-           "lru_time_cache::Entry::<'a, Key, Value>::or_insert_with"}
+           "lru_time_cache::Entry::<'a, Key, Value>::or_insert_with",
+           # the two sides of an Entry obtained from entry() (which has refreshed and purged already)
+           "lru_time_cache::OccupiedEntry::<'a, Value>::into_mut",
+           "lru_time_cache::VacantEntry::<'a, Key, Value>::insert"}
 
 
 def check(env, rep, tier):
@@ -73,4 +76,5 @@ def check(env, rep, tier):
         rep.ob("C20.2", "entry-used", "lru_time_cache::LruCache::<Key, Value>::entry" in used,
                "no LruCache::entry call found: the state lookup mechanism is gone", site)
         rep.floor("C20.2", "entry().or_insert() lookups", len(used.get("lru_time_cache::Entry::<'a, Key, Value>::or_insert", []))
-                  + len(used.get("lru_time_cache::Entry::<'a, Key, Value>::or_insert_with", [])), 1)
+                  + len(used.get("lru_time_cache::Entry::<'a, Key, Value>::or_insert_with", []))
+                  + len(used.get("lru_time_cache::VacantEntry::<'a, Key, Value>::insert", [])), 1)
